@@ -368,6 +368,7 @@ class C09(Check):
         self.q_respelled_member = 0
         self.class_hits = {1: 0, 2: 0, 3: 0}
         self.cli_runs = 0
+        self.cli_runs_cov = 0
         self.oracle_cases = 0
         self.oracle_files = 0
         self.oracle_bad = []
@@ -410,7 +411,10 @@ class C09(Check):
         for i in range(n_cli):
             c = gen_case(self.rng, malformed=(i % 7 == 6))
             c[1], c[2] = ["r"], ["."]
-            c.append(self.rng.randint(0, len(c[3])))
+            k = self.rng.randint(0, len(c[3]))
+            if i % 3 == 2 and not any(l.startswith("-") for l in c[3]):
+                k = -1                                   # cbi-cov compute instead of cbi-tree
+            c.append(k)
             out.append(c)
         self.stats["streams"] = {"exhaustive": len(lists), "valid_random": n_valid, "malformed_random": n_bad,
                                  "command_line": 6 if quick else 70}
@@ -493,6 +497,20 @@ class C09(Check):
         cfg = base.parent / "cfg"
         cfg.mkdir(exist_ok=True)
         (cfg / "cc.json").write_text("[]")
+        env = dict(os.environ, PYTHONPATH=str(common.REPO), COLUMNS="500")
+        root_abs = str(base / "r")
+        if k == -1:
+            # cbi-cov compute -S r -x line ... -o cov.json cc.json ; the "file" entries are the enumeration
+            args = [sys.executable, "-W", "ignore", "-m", "codebasin.coverage", "compute", "-S", root_abs]
+            for l in lines:
+                args += ["-x", l]
+            args += ["-o", str(cfg / "cov.json"), str(cfg / "cc.json")]
+            (cfg / "cov.json").unlink(missing_ok=True)
+            pr = subprocess.run(args, cwd=cfg, capture_output=True, text=True, env=env, timeout=120)
+            if pr.returncode != 0:
+                raise RuntimeError("cbi-cov failed: " + pr.stderr[-300:])
+            self.cli_runs_cov += 1
+            return [os.path.normpath(root_abs + "/" + e["file"]) for e in json.loads((cfg / "cov.json").read_text())]
         by_option = [l for l in lines[:k] if not l.startswith("-")]
         by_file = [l for l in lines[:k] if l.startswith("-")] + list(lines[k:])
         # (a line starting with '-' cannot be given to -x; it is moved to the file, which keeps the order
@@ -506,13 +524,11 @@ class C09(Check):
         for l in by_option:
             args += ["-x", l] if not l.startswith("-") else []
         args.append(str(cfg / "an.toml"))
-        env = dict(os.environ, PYTHONPATH=str(common.REPO), COLUMNS="500")
         pr = subprocess.run(args, cwd=base / "r", capture_output=True, text=True, env=env, timeout=120)
         (base / "r" / "cbi.log").unlink(missing_ok=True)
         if pr.returncode != 0:
             raise RuntimeError("cbi-tree failed: " + pr.stderr[-300:])
         self.cli_runs += 1
-        root_abs = str(base / "r")
         return [root_abs + "/" + f for f in parse_tree_listing(pr.stdout, root_abs)]
 
     # ---- views ----
@@ -764,7 +780,7 @@ class C09(Check):
         self.probe = probe
 
     def extra_coverage(self):
-        return {"command_line_runs_cbi_tree": self.cli_runs, "unsupported_pattern_cases": self.n_unsupported, "constructor_error_cases": self.n_ctor,
+        return {"command_line_runs_cbi_tree": self.cli_runs, "command_line_runs_cbi_cov": self.cli_runs_cov, "unsupported_pattern_cases": self.n_unsupported, "constructor_error_cases": self.n_ctor,
                 "input_distribution": self.hist, "queries_total": self.q_total, "queries_member": self.q_member,
                 "queries_not_the_real_path": self.q_respelled, "queries_not_the_real_path_members": self.q_respelled_member,
                 "class_predicate_true_queries": self.guard_true, "class_predicate_true_and_M_differs_from_S": self.guard_true_differs,
